@@ -128,6 +128,12 @@ def combinedGet (a b : Option (List V)) : Option (List V) :=
   | none, none => none
   | x, y => some (x.getD [] ++ y.getD [])
 
+/-- `is_empty` of the serial map-backed indices (`HashMap::is_empty`): no key at all -/
+def HMap.isEmpty (m : HMap K V) : Bool := List.isEmpty m
+
+/-- `RelIndexCombined::is_empty`: both sides are (definitely) empty -/
+def combinedIsEmpty (a b : Bool) : Bool := a && b
+
 /-! ## concurrent indices: frozen flag + shards -/
 
 inductive Res (α : Type) where
@@ -173,6 +179,10 @@ def CIdx.moveContents (frm to : CIdx V) : Res (CIdx V × CIdx V) :=
     .ok ({ frm with shards := rs.map (·.1) }, { to with shards := rs.map (·.2) })
 
 def CIdx.entries (c : CIdx V) : List (Int × V) := c.shards.flatMap Idx.entries
+
+/-- `RelIndexRead::is_empty` ("is the relation DEFINITELY empty": generated code skips a whole rule when it
+answers `true`): every shard's map is empty; needs `Frozen` -/
+def CIdx.isEmpty (c : CIdx V) : Res Bool := if !c.frozen then .panic else .ok (c.shards.all List.isEmpty)
 
 structure CFullIdx (V : Type) where
   frozen : Bool
@@ -220,6 +230,9 @@ def CFullIdx.moveContents (frm to : CFullIdx V) : Res (CFullIdx V × CFullIdx V)
 
 def CFullIdx.entries (c : CFullIdx V) : List (Int × V) := c.shards.flatMap id
 
+/-- `is_empty`: `len() == 0` of the frozen map -/
+def CFullIdx.isEmpty (c : CFullIdx V) : Res Bool := if !c.frozen then .panic else .ok (c.shards.all List.isEmpty)
+
 structure CLatIdx (V : Type) where
   frozen : Bool
   shards : List (LatIdx Int V)
@@ -252,6 +265,9 @@ def CLatIdx.moveContents (frm to : CLatIdx V) : Res (CLatIdx V × CLatIdx V) :=
     .ok ({ frm with shards := rs.map (·.1) }, { to with shards := rs.map (·.2) })
 
 def CLatIdx.entries (c : CLatIdx V) : List (Int × V) := c.shards.flatMap Idx.entries
+
+/-- `is_empty`: `len() == 0` of the frozen map -/
+def CLatIdx.isEmpty (c : CLatIdx V) : Res Bool := if !c.frozen then .panic else .ok (c.shards.all List.isEmpty)
 
 /-- `CRelNoIndex`: one `Vec` per thread of the pool current at construction -/
 structure CNoIdx (V : Type) where
